@@ -40,6 +40,18 @@ type mdGen struct {
 	heads  map[string]int
 	seq    int
 	decor  []string // literal text around a word that must appear verbatim in the document
+	math   bool     // formulas are enabled
+	vis    strings.Builder
+	seqs   []mdSeq // every inline sequence with the text a reader sees
+}
+
+// mdSeq is one inline sequence (the content of a heading, paragraph, list item, quote line): its visible text as Markdown
+// defines it, and the first token, by which the paragraph that carries it is found.
+type mdSeq struct {
+	block   string
+	visible string
+	first   string
+	open    bool // a quote line that the next quote line continues
 }
 
 type mdTable struct {
@@ -59,9 +71,13 @@ func (g *mdGen) inline(block string, maxParts int) string {
 	hadMath := false
 	g.seq++
 	first := len(g.toks)
+	g.vis.Reset()
 	defer func() {
 		for i := first; i < len(g.toks); i++ {
 			g.toks[i].seq = g.seq
+		}
+		if first < len(g.toks) {
+			g.seqs = append(g.seqs, mdSeq{block: block, visible: g.vis.String(), first: g.toks[first].tok})
 		}
 	}()
 	for i := 0; i < parts; i++ {
@@ -72,6 +88,7 @@ func (g *mdGen) inline(block string, maxParts int) string {
 			} else {
 				sb.WriteString(" ")
 			}
+			g.vis.WriteString(" ")
 		}
 		w := g.word()
 		t := mdTok{tok: w, block: block}
@@ -83,29 +100,36 @@ func (g *mdGen) inline(block string, maxParts int) string {
 				d := w + []string{"&copy=1", "&lt b", " R&D", "&reg=eu&lang=en", " &#12345678;", " 50%", " AT&T", "&amp", " a&b;c"}[r.Intn(9)]
 				g.decor = append(g.decor, d)
 				sb.WriteString(d)
+				g.vis.WriteString(d)
 				g.use("literal-ampersand-text")
 				break
 			}
 			sb.WriteString(w)
+			g.vis.WriteString(w)
 		case k == 5:
 			t.em = true
 			sb.WriteString("*" + w + "*")
+			g.vis.WriteString(w)
 			g.use("emphasis")
 		case k == 6:
 			t.strong = true
 			sb.WriteString("**" + w + "**")
+			g.vis.WriteString(w)
 			g.use("strong")
 		case k == 7:
 			t.code = true
 			sb.WriteString("`" + w + "`")
+			g.vis.WriteString(w)
 			g.use("code-span")
 		case k == 8 && g.gfm:
 			t.strike = true
 			sb.WriteString("~~" + w + "~~")
+			g.vis.WriteString(w)
 			g.use("strike")
 		case k == 9:
 			t.link = true
 			sb.WriteString("[" + w + "](http://example.com/" + w + ")")
+			g.vis.WriteString(w)
 			g.use("link")
 		case k == 10:
 			// nested emphasis: strong around emphasis
@@ -114,12 +138,20 @@ func (g *mdGen) inline(block string, maxParts int) string {
 			g.toks = append(g.toks, t)
 			t = mdTok{tok: w2, block: block, strong: true, em: true}
 			sb.WriteString("**" + w + " *" + w2 + "***")
+			g.vis.WriteString(w + " " + w2)
 			g.use("nested-emphasis")
+		case k == 11 && r.Chance(1, 3):
+			// a bare address without a scheme: a link with GFM (the address as written is the visible text), plain text without
+			t.link = g.gfm
+			sb.WriteString("www.example.com/" + w)
+			g.vis.WriteString("www.example.com/" + w)
+			g.use("bare-www-address")
 		case k == 11:
 			// autolink: the URL is the visible text
 			t.link = true
 			t.tok = "http://example.com/" + w
 			sb.WriteString("<http://example.com/" + w + ">")
+			g.vis.WriteString("http://example.com/" + w)
 			g.use("autolink")
 		case k == 13 && !hadMath:
 			// inline formula: a math-font run when math is enabled, literal text otherwise
@@ -127,6 +159,11 @@ func (g *mdGen) inline(block string, maxParts int) string {
 			hadMath = true
 			t.math = true
 			sb.WriteString("$" + w + "$")
+			if g.math {
+				g.vis.WriteString(w)
+			} else {
+				g.vis.WriteString("$" + w + "$")
+			}
 			g.use("inline-math")
 		case k == 4 || k == 3:
 			// span tree: formatting spans of different kinds nested in each other with text before, between and after the inner spans
@@ -137,9 +174,11 @@ func (g *mdGen) inline(block string, maxParts int) string {
 			// emphasis around a code span
 			t.em, t.code = true, true
 			sb.WriteString("*`" + w + "`*")
+			g.vis.WriteString(w)
 			g.use("code-in-emphasis")
 		default:
 			sb.WriteString(w)
+			g.vis.WriteString(w)
 		}
 		g.toks = append(g.toks, t)
 	}
@@ -189,6 +228,7 @@ func (g *mdGen) span(sb *strings.Builder, block string, depth int, outer mdTok) 
 	for i := 0; i < n; i++ {
 		if i > 0 {
 			sb.WriteString(" ")
+			g.vis.WriteString(" ")
 		}
 		switch k := r.Intn(6); {
 		case k < 2 && depth < 2 && len(kinds) > 1:
@@ -199,12 +239,14 @@ func (g *mdGen) span(sb *strings.Builder, block string, depth int, outer mdTok) 
 			t := in
 			t.tok, t.code = w, true
 			sb.WriteString("`" + w + "`")
+			g.vis.WriteString(w)
 			toks = append(toks, t)
 		default:
 			w := g.word()
 			t := in
 			t.tok = w
 			sb.WriteString(w)
+			g.vis.WriteString(w)
 			toks = append(toks, t)
 		}
 	}
@@ -216,6 +258,7 @@ func (g *mdGen) span(sb *strings.Builder, block string, depth int, outer mdTok) 
 			t := in
 			t.tok = w
 			sb.WriteString(" " + w)
+			g.vis.WriteString(" " + w)
 			toks = append(toks, t)
 		}
 	}
@@ -277,30 +320,79 @@ func (g *mdGen) document() string {
 			g.use("task-list")
 		case k == 7:
 			for i, n := 0, r.Range(1, 2); i < n; i++ {
+				at := len(g.seqs)
 				sb.WriteString("> " + g.inline("quote", 3) + "\n")
+				if i > 0 && at > 0 && len(g.seqs) == at+1 && g.seqs[at-1].open {
+					// the previous quote line was not closed by an empty quote line: both lines are one paragraph
+					g.seqs[at-1].visible += " " + g.seqs[at].visible
+					g.seqs[at-1].open = false
+					g.seqs = g.seqs[:at]
+					at--
+				}
 				if r.Bool() {
 					sb.WriteString(">\n")
+				} else if len(g.seqs) == at+1 {
+					g.seqs[at].open = true
 				}
 			}
 			sb.WriteString("\n")
 			g.use("blockquote")
 		case k == 8:
-			var lines []string
+			// code: every line has leading white space of blanks and tabs; what is left of it after the block's own indentation
+			// (the four columns of an indented block, the 0-3 columns of a fence's indentation) is part of the code line - a tab
+			// that is only partly used up leaves its remaining columns as blanks (CommonMark 2.2, 4.4, 4.5)
+			var bodies, leads []string
 			for i, n := 0, r.Range(1, 4); i < n; i++ {
 				a, b := g.word(), g.word()
 				g.toks = append(g.toks, mdTok{tok: a, block: "codeblock"}, mdTok{tok: b, block: "codeblock"})
-				lines = append(lines, strings.Repeat(" ", r.Intn(3)*2)+a+" := "+b)
+				bodies = append(bodies, a+" := "+b)
+				lead := strings.Repeat(" ", r.Intn(3)*2)
+				if r.Chance(1, 4) {
+					lead = []string{"\t", " \t", "  \t", "\t\t", "\t  ", "   \t", "    \t"}[r.Intn(7)]
+					g.use("code-line-with-tab-indentation")
+				}
+				leads = append(leads, lead)
 			}
-			g.code = append(g.code, lines)
+			var lines, src []string
 			if r.Bool() || wasContainer || lastIndented {
-				sb.WriteString("```go\n" + strings.Join(lines, "\n") + "\n```\n\n")
+				fi := 0
+				if !wasContainer && r.Chance(1, 3) {
+					fi = r.Range(1, 3)
+					g.use("fenced-code-with-indented-fence")
+				}
+				fence := []string{"```", "~~~"}[r.Intn(2)]
+				info := []string{"go", ""}[r.Intn(2)]
+				for i := range bodies {
+					raw := leads[i] + bodies[i]
+					if fi > 0 && r.Bool() {
+						raw = strings.Repeat(" ", fi) + raw // the line is indented like its fence
+					}
+					src = append(src, raw)
+					lines = append(lines, stripIndentColumns(raw, fi))
+				}
+				ci := 0
+				if fi > 0 {
+					ci = r.Intn(4)
+				}
+				sb.WriteString(strings.Repeat(" ", fi) + fence + info + "\n" + strings.Join(src, "\n") + "\n" + strings.Repeat(" ", ci) + fence + "\n\n")
 				g.use("fenced-code")
 				lastIndented = false
 			} else {
 				lastIndented = true
-				sb.WriteString("    " + strings.Join(lines, "\n    ") + "\n\n")
+				for i := range bodies {
+					pre := "    "
+					if r.Chance(1, 4) {
+						pre = []string{"\t", " \t", "  \t", "   \t"}[r.Intn(4)]
+						g.use("indented-code-with-tab")
+					}
+					raw := pre + leads[i] + bodies[i]
+					src = append(src, raw)
+					lines = append(lines, stripIndentColumns(raw, 4))
+				}
+				sb.WriteString(strings.Join(src, "\n") + "\n\n")
 				g.use("indented-code")
 			}
+			g.code = append(g.code, lines)
 		case k == 9 && r.Bool():
 			w := g.word()
 			g.toks = append(g.toks, mdTok{tok: w, block: "mathblock", math: true})
@@ -384,6 +476,30 @@ func (g *mdGen) document() string {
 	return sb.String()
 }
 
+// stripIndentColumns removes up to n columns of leading white space from a line; tab stops are every four columns, and a tab
+// that reaches beyond the n-th column leaves the columns it still covers as blanks.
+func stripIndentColumns(line string, n int) string {
+	col, i := 0, 0
+	for i < len(line) && col < n {
+		switch line[i] {
+		case ' ':
+			col++
+			i++
+		case '\t':
+			w := 4 - col%4
+			if col+w <= n {
+				col += w
+				i++
+			} else {
+				return strings.Repeat(" ", col+w-n) + line[i+1:]
+			}
+		default:
+			return line[i:]
+		}
+	}
+	return line[i:]
+}
+
 type docTok struct {
 	tok                        string
 	bold, italic, strike, code bool
@@ -448,7 +564,7 @@ func c19Fidelity(c *core.Ctx, r *rng.R) *core.Result {
 	res := &core.Result{}
 	mask := r.Intn(64)
 	opts := c19Options(r, mask)
-	g := &mdGen{r: r, gfm: opts.EnableGFM, feats: map[string]bool{}, heads: map[string]int{}}
+	g := &mdGen{r: r, gfm: opts.EnableGFM, math: opts.EnableMath, feats: map[string]bool{}, heads: map[string]int{}}
 	src := g.document()
 	var d *document.Document
 	var err error
@@ -564,6 +680,33 @@ func c19Fidelity(c *core.Ctx, r *rng.R) *core.Result {
 			sb.WriteString(rr.Text.Content)
 		}
 		paraTexts = append(paraTexts, sb.String())
+	}
+	// 2a. the paragraph that carries an inline sequence shows exactly the text Markdown defines for it (white space aside):
+	// nothing dropped, nothing invented; list and task items may have the renderer's glyph in front
+	nows := func(s string) string { return strings.Join(strings.Fields(s), "") }
+	for _, sq := range g.seqs {
+		if sq.block == "cell" || sq.block == "cellfmt" {
+			continue
+		}
+		for _, pt := range paraTexts {
+			if !strings.Contains(pt, sq.first) {
+				continue
+			}
+			res.Count("paragraph_texts_compared_with_the_source's_visible_text", 1)
+			have, want := nows(pt), nows(sq.visible)
+			ok := have == want
+			if sq.block == "list" || sq.block == "task" {
+				ok = strings.HasSuffix(have, want) && len([]rune(have))-len([]rune(want)) <= 4
+			}
+			if !ok {
+				kind := sq.block
+				if strings.HasPrefix(kind, "heading") {
+					kind = "heading"
+				}
+				res.Add("fidelity/text/visible-text-differs/"+kind, fmt.Sprintf("the %s shows %q, the Markdown says %q", kind, pt, sq.visible), optNote, src)
+			}
+			break
+		}
 	}
 	// 2c. literal text with ampersands, percent signs etc. is neither decoded nor dropped
 	allText := strings.Join(paraTexts, "\n")
@@ -807,7 +950,7 @@ func init() {
 		ID:    "C19",
 		Level: "exploration",
 		Rule: "two kinds of cases under every combination of {GFM, tables, task lists, math, footnotes, TOC} and TOC level 0-7. Totality (2 of 3 cases): hostile inputs (random runes, random bytes, 100-10000-deep >/*/[ nesting, pathological emphasis runs, wide/long tables, unterminated fences, deeply nested \\frac/\\sqrt, footnote loops, huge task lists, setext/ATX mixes, raw HTML/CDATA, hostile link/image targets, byte-mutated generated Markdown), written to disk before ConvertBytes; no panic, no hang (watchdog + isolated retry), result saves to a well-formed package; LaTeXToOMMLString -> AddMathFormula on the same inputs. " +
-			"Fidelity (1 of 3): Markdown printed from a block/inline tree (headings 1-6, paragraphs with emphasis/strong/code/strike/links/autolinks/soft breaks and span trees (spans of different kinds nested up to three deep with text before, between and after the inner spans), bullet/ordered/nested lists, task lists, block quotes, fenced and indented code, thematic breaks, tables with alignments, also tables that consist of their header row only) whose words are unique tokens: the document's token sequence equals the tree's, heading tokens sit in Heading<n> paragraphs, every token is carried by a run with exactly the italic/bold/strike formats of the spans enclosing it (code: code font), code blocks keep lines and indentation, tables keep dimensions, cell text and column alignment. Non-trivial: >=3 tokens (fidelity) / every totality input; distinct = options + input.",
+			"Fidelity (1 of 3): Markdown printed from a block/inline tree (headings 1-6, paragraphs with emphasis/strong/code/strike/links/autolinks/bare www addresses/soft breaks and span trees (spans of different kinds nested up to three deep with text before, between and after the inner spans), bullet/ordered/nested lists, task lists, block quotes, fenced code (``` or ~~~, fence indented by 0-3 columns, closing fence indented independently) and indented code whose lines start with blanks and tabs in any mix (expected line = the source line minus the block's own indentation columns, a partly used tab leaving blanks), thematic breaks, tables with alignments, also tables that consist of their header row only) whose words are unique tokens: the document's token sequence equals the tree's, the paragraph carrying an inline sequence shows exactly the visible text Markdown defines for it (white space aside; nothing dropped, nothing invented), heading tokens sit in Heading<n> paragraphs, every token is carried by a run with exactly the italic/bold/strike formats of the spans enclosing it (code: code font), code blocks keep lines and indentation, tables keep dimensions, cell text and column alignment. Non-trivial: >=3 tokens (fidelity) / every totality input; distinct = options + input.",
 		Cases: func(t string) int { return tierN(t, 4500, 400000) },
 		Run: func(c *core.Ctx) *core.Result {
 			r := caseRng(c)
